@@ -99,6 +99,10 @@ CLAIMED = {
          "Renderer-level invariance proved; `inside` expansion proved for in-range bounds with a negated corner; emitter walker validated.",
          "Trusted: Lean kernel; mini SV lexer; token-stream equality stands in for behavioural equality.",
          "DESIGN.md §4 C26"),
+ "C21": ("proof", "Lean 4 proofs: NPN canonicalisation spec for every 4-input table by a generic fold-minimum lemma over the 768 transforms (permutation table regenerated from npn4.rs; group closure; class invariance), pattern transformation and library-entry spec, soundness of mk_and / cut replacement / the whole rewrite pass / lower_cell for all cell kinds / tech-map templates + correspondence (hxaig npn exhaustive over all 65536 tables, library dump re-evaluated in Lean, real rewrite reproduced node for node) + oracle (independent union-find class minima; sink functions before/after rewrite+techmap by exhaustive/random vectors)",
+         "20 full-strength theorems; the feature did not compile on the pinned tree (repaired, 3bc2a0b); two recorded findings: the AIG round trip deletes logic on FF control pins and on RAM pins.",
+         "Trusted: Lean kernel; tools/gen.py (tables, lower_cell translator); hash-cons/net_edge functional; pattern library is a model input dumped from the running process.",
+         "DESIGN.md §4 C21"),
  "C07": ("proof", "Lean 4 proof over a table-state model of the language server (drop_file removes by file tag; every non-leaky table is a function of the final buffers for every notification history) with the table list and drop set REGENERATED from the analyzer/parser sources (`tables_classified` by decide: a new thread_local table or a table removed from drop_file breaks it); negated statement for leaky tables with witnesses + oracle: real veryl-ls driven over stdio through generated notification histories vs a fresh server on the final buffers",
          "28 of 44 global tables are proved state-free of history under their recorded class; 16 leaky tables: 4 observable (recorded findings with replayed histories), 12 argued unobservable; per-table classes are assumptions with reason strings.",
          "Trusted: Lean kernel; tools/gen.py table extraction; tools/lsp_client.py; the class assigned to each table.",
